@@ -113,6 +113,8 @@ fn run_clock_error_bound_poller(
 
     // Keep on running forever until we receive the instruction to stop.
     while keep_running {
+        #[cfg(clockbound_verif)]
+        { if crate::verif_fault::hit("poller.loop") { return; } }
         // First, make sure we take a MONOTONIC timestamp *before* getting chronyd data. This will
         // slightly inflate the dispersion component of the clock error bound but better be
         // pessimistic and correct, than greedy and wrong. The actual error added here is expected
@@ -154,6 +156,8 @@ fn run_clock_error_bound_poller(
                     }
                 };
 
+                #[cfg(clockbound_verif)]
+                { if crate::verif_fault::hit("poller.send") { return; } }
                 match ctx.dbox.send(&ChannelId::ShmWriter, message) {
                     Ok(()) => (),
                     Err(_) => {
@@ -172,6 +176,8 @@ fn run_clock_error_bound_poller(
         // would hit chronyd at the same pace. In the current implementation, this is not happening
         // since only the Abort message is meant to be sent to the chronyd polling thread. However,
         // should improve on this to make it robust by having a more dynamic sleep time.
+        #[cfg(clockbound_verif)]
+        { if crate::verif_fault::hit("poller.wait") { return; } }
         match ctx.mbox.recv_timeout(sleep) {
             Ok(Message::ThreadAbort) => {
                 info!("Received message to stop polling chronyd");
@@ -187,6 +193,8 @@ fn run_clock_error_bound_poller(
 /// Entry point to this thread.
 pub fn run(ctx: Context, phc_info: Option<PhcInfo>) {
     info!("Starting chronyd polling thread");
+    #[cfg(clockbound_verif)]
+    { if crate::verif_fault::hit("poller.start") { return; } }
     let poller = ClockErrorBoundPoller::default();
     let sleep = Duration::from_millis(1000);
     run_clock_error_bound_poller(ctx, poller, phc_info, sleep);
@@ -588,5 +596,21 @@ mod t_chrony_poller {
                     .contains("Could not parse error bound value to i64"));
             }
         }
+    }
+}
+
+/// Verification-only access to this module's private items (built only with --cfg clockbound_verif).
+#[cfg(clockbound_verif)]
+pub mod verif {
+    use super::*;
+
+    /// Run the real polling loop with the real chronyd client.
+    pub fn run_poller(ctx: Context, phc_info: Option<PhcInfo>, sleep: Duration) {
+        run_clock_error_bound_poller(ctx, ClockErrorBoundPoller::default(), phc_info, sleep)
+    }
+
+    /// The private sysfs reader.
+    pub fn phc_error_bound(path: &std::path::Path) -> Result<i64, std::io::Error> {
+        get_phc_error_bound_from_path(path)
     }
 }
